@@ -369,7 +369,8 @@ structure PurgeDelivery where
 
 def deliverPurgeWith (copied1 copied2 catches : Bool) (lower : String → String) (order : List Nat → List Nat) (c : Cache) (ls : List Nat)
     (now : Ms) (react1 react2 : Nat → List ListenerAct) : Except PyExc PurgeDelivery := do
-  let out ← expire (Cache.ops lower) c now
+  -- one reading of the clock: the instant the cache is swept with is the instant the listeners are told (leaf `purge_expire_now`)
+  let out ← expire (Cache.ops lower) c (Gen.Cache.purge_expire_now now)
   let pairs := out.2.map (fun r => (r, some r))
   let r1 := notifyRoundWith copied1 catches (order ls) react1
   match r1.err with
